@@ -118,6 +118,7 @@ type Exec struct {
 	inlining          []*ssa.Function
 	lockSeq           int
 	safety            bool // generate safety obligations for the top frame
+	allowEscapingElemPtr bool // opt elemptr: &s[i] of a local slice may be passed on as an opaque pointer
 	probing           int
 	provingLemma      *Lemma
 	fuel, unfoldDepth int
@@ -350,7 +351,13 @@ func (ex *Exec) asTerm(v Value, t types.Type) Term {
 	case Term:
 		return x
 	case Ptr:
-		panic(unsupported("pointer to a local used as a first-class value (" + t.String() + ")"))
+		if cr, ok := x.Loc.Root.(CellRoot); ok && len(x.Loc.Path) > 0 && ex.allowEscapingElemPtr {
+			// &s[i] of a local slice value handed on as a value: an opaque pointer (nothing is known about what it
+			// points to; writes through it by the receiver are not reflected in the local - noted as an assumption)
+			ex.vc.note("address of an element of local %s escapes as a value: opaque pointer, writes through it are not tracked", cr.A.Comment)
+			return Term{S: ex.vc.fresh("elemptr", ex.vc.tc.sortOf(t)), T: t}
+		}
+		panic(unsupported("pointer to a local used as a first-class value (" + t.String() + ", " + fmt.Sprint(x.Loc.Root) + ")"))
 	case Closure, FnRef, MergedFn:
 		// function values are opaque when stored
 		return Term{S: ex.vc.fresh("fnval", "Int"), T: t}
